@@ -1,7 +1,19 @@
-"""Prototype zygote: pre-import jade, fork per CLI invocation. Throwaway."""
-import os, sys, json, socket, signal, selectors, array
-import vsim_agent  # installed (inactive) by sitecustomize
+"""Fork server: imports the JADE CLI once from the repository's *current working tree* and forks one
+child per `jade` / `jade-internal` invocation (request = argv, environment, cwd, stdio descriptors).
+
+The child applies the request's environment, activates the simulation agent with its own identity and
+runs the real click command.  5 ms per JADE process instead of ~1 s of imports.
+"""
+import json
 import logging
+import os
+import selectors
+import signal
+import socket
+import sys
+
+import vsim_agent  # installed (inactive) by sitecustomize because VSIM_ZYGOTE is set
+
 from jade.cli.jade import cli as jade_cli
 from jade.cli.jade_internal import cli as jade_internal_cli
 
@@ -10,8 +22,8 @@ if os.path.exists(ZSOCK):
     os.remove(ZSOCK)
 srv = socket.socket(socket.AF_UNIX, socket.SOCK_STREAM)
 srv.bind(ZSOCK)
-srv.listen(128)
-children = {}  # pid -> conn
+srv.listen(256)
+children = {}
 sel = selectors.DefaultSelector()
 sel.register(srv, selectors.EVENT_READ)
 rfd, wfd = os.pipe()
@@ -23,10 +35,17 @@ print("zygote ready", flush=True)
 
 
 def run_child(conn, req, fds):
-    # in child
     signal.set_wakeup_fd(-1)
     signal.signal(signal.SIGCHLD, signal.SIG_DFL)
-    srv.close(); conn.close(); os.close(rfd); os.close(wfd)
+    srv.close()
+    conn.close()
+    os.close(rfd)
+    os.close(wfd)
+    for c in children.values():
+        try:
+            c.close()
+        except OSError:
+            pass
     for i, fd in enumerate(fds):
         os.dup2(fd, i)
     for fd in fds:
@@ -46,11 +65,15 @@ def run_child(conn, req, fds):
     except SystemExit as e:
         code = e.code if isinstance(e.code, int) else (0 if e.code is None else 1)
     except BaseException:
-        import traceback; traceback.print_exc()
+        import traceback
+
+        traceback.print_exc()
         code = 1
     finally:
         try:
-            logging.shutdown(); sys.stdout.flush(); sys.stderr.flush()
+            logging.shutdown()
+            sys.stdout.flush()
+            sys.stderr.flush()
         except Exception:
             pass
         os._exit(code)
@@ -60,8 +83,12 @@ while True:
     for key, _ in sel.select():
         if key.fileobj is srv:
             conn, _ = srv.accept()
-            msg, fds, _f, _a = socket.recv_fds(conn, 1 << 20, 3)
-            req = json.loads(msg)
+            try:
+                msg, fds, _f, _a = socket.recv_fds(conn, 1 << 20, 3)
+                req = json.loads(msg)
+            except Exception:
+                conn.close()
+                continue
             pid = os.fork()
             if pid == 0:
                 run_child(conn, req, fds)
